@@ -3,7 +3,7 @@
    every operation; selectors >= 100 = laws on the implementation's dumps. *)
 From stdpp Require Import gmap.
 From Coq Require Import ZArith List.
-From V Require Import Base.Codec Base.Res Base.ResCodec Sched.LedgerModel Sched.StmtModel Sched.LedgerCodec Sched.LedgerInv.
+From V Require Import Base.Codec Base.Res Base.ResCodec Sched.LedgerModel Sched.StmtModel Sched.LedgerCodec Sched.LedgerInv Sched.DumpCodec.
 Import ListNotations.
 Open Scope Z_scope.
 
@@ -28,63 +28,6 @@ Definition dCase : dec (Z * list node_spec * list job_spec * list task_spec * li
   let* e := dZ in let* ns := dList dNodeSpec in let* js := dList dJobSpec in
   let* ts := dList dTaskSpec in let* ops := dList dOp in ret (e, ns, js, ts, ops).
 
-(* ---- dumps coming back from the implementation (law inputs) ---- *)
-Definition dTaskBrief : dec (positive * status * option positive) :=
-  let* i := dPos in let* s := dStatus in let* n := dNodeRef in ret (i, s, n).
-Definition dSet : dec (gset positive) := let* l := dList dPos in ret (list_to_set l).
-Definition dIndex : dec (gmap positive (gset positive)) :=
-  let* l := dList (dPair dPos dSet) in ret (list_to_map l).
-
-(* the law inputs carry, per task, the static fields too (job, request) so
-   that sums can be recomputed: tasks are (id status node job cpu mem gpu) *)
-Definition dTaskFull : dec task :=
-  let* i := dPos in let* s := dStatus in let* n := dNodeRef in let* j := dPos in
-  let* c := dZ in let* m := dZ in let* g := dZ in
-  let r := mk_req c m g in
-  ret (mkTask i j 1%positive 1%positive 0 r r false false s n).
-
-Definition dJobDump : dec job :=
-  let* i := dPos in let* ts := dSet in let* ix := dIndex in let* al := dRes in let* tot := dRes in
-  let* subs := dList (let* sid := dPos in let* st := dSet in let* six := dIndex in ret (sid, mkSub 0 st six)) in
-  let sm : gmap positive subjob := list_to_map subs in
-  (* TaskToSubJob is rebuilt from the sub-jobs' task sets *)
-  let tsub : gmap positive positive :=
-    list_to_map (flat_map (fun kv => map (fun t => (t, fst kv)) (elements (sj_tasks (snd kv)))) subs) in
-  ret (mkJob i 1%positive 0 ∅ 0 ts ix al tot sm tsub).
-
-Definition dNodeDump (heap : gmap positive task) : dec node :=
-  let* i := dPos in let* idle := dRes in let* used := dRes in let* rel := dRes in let* pip := dRes in
-  let* al := dRes in let* has := dBool in
-  let* cs := dList dTaskBrief in
-  let copies : gmap positive task :=
-    list_to_map (omap (fun c => let '(tid, st, nd) := c in
-                        match heap !! tid with
-                        | Some t => Some (tid, set_node (set_status t st) nd)
-                        | None => None end) cs) in
-  ret (mkNode i has idle used rel pip al copies).
-
-Record dump := mkDump {
-  d_heap : gmap positive task; d_jobs : gmap positive job; d_nodes : gmap positive node;
-  d_share : gmap positive res }.
-
-Definition dDump : dec dump :=
-  let* ts := dList dTaskFull in
-  let heap : gmap positive task := list_to_map (map (fun t => (t_id t, t)) ts) in
-  let* js := dList dJobDump in
-  let* ns := dList (dNodeDump heap) in
-  let* sh := dList (dPair dPos dRes) in
-  ret (mkDump heap (list_to_map (map (fun j => (j_id j, j)) js))
-              (list_to_map (map (fun n => (n_id n, n)) ns)) (list_to_map sh)).
-
-Definition dump_sameb (a b : dump) : bool :=
-  map_sameb task_sameb (d_heap a) (d_heap b) &&
-  map_sameb job_sameb (d_jobs a) (d_jobs b) &&
-  map_sameb node_sameb (d_nodes a) (d_nodes b) &&
-  share_sameb (d_share a) (d_share b).
-
-(* law of one step: the invariant holds after it; an operation that reported an
-   error left no trace; only Commit / Session.Allocate / Session.Evict reach the
-   binder and the evictor *)
 Definition pending_off_node (d : dump) (tid : Z) : bool :=
   match d_heap d !! Z.to_pos tid with
   | Some t => bool_decide (t_status t = Pending) && bool_decide (t_node t = None) &&
